@@ -399,7 +399,7 @@ func report(e *Engine, spec *PropSpec, r *propResult, tier string, seed int, wal
 				lines = append(lines, fmt.Sprintf("VIOLATION property=%s replay=%s", spec.ID, p))
 			}
 			standinInfo = map[string]interface{}{"corpus_inputs": standinCount, "formatted": len(standinOut["formatted"]), "syntax_errors": len(standinOut["syntax-error"]), "failing_pairs": len(names), "known": nKnown, "classes": spec.Standin,
-				"bound": "corpus enumerated by goverif/standin.go from grammar/PacketDsl.g4 (every alternative / optional element toggled, <=3 rounds of choice-point discovery), key lists of length 1..16, comments at <=4 token boundaries per sentence (quick) / at every token boundary (thorough), 2 whitespace re-layouts per input"}
+				"bound": "corpus enumerated by goverif/standin.go from grammar/PacketDsl.g4 (every alternative / optional element toggled, <=3 rounds of choice-point discovery), key lists of length 1..16, comments at <=4 token boundaries per sentence (quick) / at every token boundary (thorough), 3 token-aware whitespace re-layouts per input"}
 		}
 	}
 	if spec.Crash {
